@@ -176,6 +176,29 @@ except ValueError:
 b = {1: 2}
 c = b[t(1, 5)]
 ''',
+    # destructuring targets whose elements evaluate something: every occurrence inside a target display reports like the same target written alone
+    "targets": '''bx = Box(5)
+by = Box(bx)
+d = {8: 0, 9: 0, "k": 0}
+k = "k"
+bx.v, d[k] = 1, 2
+[by.v.v, *d[9]] = 3, 4, 5
+(a, (bx.v, d[t(1, 8)])), c = (1, (2, 3)), 4
+for d[8], by.v.v in [(1, 2), (3, 4)]:
+    a = a + d[8]
+for (i, bx.items[i - i]) in [(0, 7), (1, 8)]:
+    a = a + bx.items[0]
+class Pair:
+    def __enter__(self):
+        return (1, 2)
+    def __exit__(self, *x):
+        return False
+with Pair() as (bx.v, d[k]):
+    a = a + bx.v
+bx.items[0:2], d[9] = [6, 7], 9
+del d[8], bx.items[0]
+e = (d[9], bx.items, by.v.v, c)
+''',
 }
 
 
